@@ -13,7 +13,7 @@ import ast
 from dataclasses import dataclass
 from typing import Any, Optional
 
-from ..absval import Interp, Obj, Outcome, RaiseSignal, Sym, Unknown, _DictView, enumerate_paths
+from ..absval import Vec, Interp, Obj, Outcome, RaiseSignal, Sym, Unknown, _DictView, enumerate_paths
 from ..linarith import constraint_slack, decide_leq
 from ..model import Func, Program, Undecided, norm
 from ..pointwise import DTYPE_NAMES, dtype_of
@@ -150,6 +150,9 @@ class RelabelInterp(ResultInterp):
                 return res if isinstance(op, ast.In) else not res
             return Unknown("membership")
         sym = {ast.Eq: "==", ast.NotEq: "!=", ast.Lt: "<", ast.LtE: "<=", ast.Gt: ">", ast.GtE: ">="}.get(type(op))
+        if isinstance(l, LArr1D) and sym and self.lv(r) is not None:
+            # elementwise comparison of a label vector with a scalar
+            return Vec(self.truth(self.compare(op, x, r, node), node) for x in l.items)
         if isinstance(op, (ast.Eq, ast.NotEq)) and isinstance(l, (list, tuple)) and isinstance(r, (list, tuple)) and type(l) is type(r) and l and all(self.lv(x) is not None for x in list(l) + list(r)):
             # sequences of labels are equal iff they have the same length and agree position by position
             # (each position is a fact about the labels, recorded on the path like any other comparison)
@@ -283,6 +286,10 @@ class RelabelInterp(ResultInterp):
                     return LV(o.amax, o.cont, "nps")
                 return Unknown(f"array.{name}")
             if isinstance(o, LArr1D):
+                if name == "tolist" and not args:
+                    return [LV(x.poly, "py", "py") for x in o.items]
+                if name == "copy" and not args:
+                    return LArr1D(list(o.items), o.cont)
                 if name == "max":
                     return self.sym_max(o.items, node)
                 if name == "astype":
@@ -333,6 +340,8 @@ class RelabelInterp(ResultInterp):
             return LV(args[0].poly, "py", "py")
         if name == "len" and args and isinstance(args[0], LArr1D):
             return len(args[0].items)
+        if name == "enumerate" and len(args) == 1 and isinstance(args[0], LArr1D) and not kwargs:
+            return list(enumerate(args[0].items))
         if name == "zip" and args and all(isinstance(a, (LArr1D, list, tuple)) for a in args):
             return list(zip(*[(a.items if isinstance(a, LArr1D) else a) for a in args]))
         if name in ("list", "tuple") and args and isinstance(args[0], LArr1D):
@@ -349,11 +358,41 @@ class RelabelInterp(ResultInterp):
             if dt:
                 return IInfo(dt)
             return Unknown("iinfo")
+        if name in ("numpy.array", "numpy.asarray") and args and isinstance(args[0], LArr1D):
+            if kwargs.get("dtype") is None:
+                return LArr1D(list(args[0].items), args[0].cont)
+            dt = dtype_of(kwargs.get("dtype"))
+            if dt is None:
+                return Unknown("array with unknown dtype")
+            for x in args[0].items:
+                self.ev(node, "label table entry", x.poly, dt)
+            return LArr1D(list(args[0].items), dt)
+        if name in ("numpy.zeros", "numpy.zeros_like", "numpy.empty_like") and args and not (set(kwargs) - {"dtype"}):
+            src_ = args[0]
+            if isinstance(src_, (tuple, list)) and src_ and all(isinstance(x, LV) for x in src_) and name != "numpy.zeros":
+                conts_ = {x.cont for x in src_ if x.kind == "nps"}
+                src_ = LArr1D(list(src_), conts_.pop() if len(conts_) == 1 else "i64")  # (the label collection as the array this code keeps)
+            n_ = src_ if isinstance(src_, int) and not isinstance(src_, bool) else len(src_.items) if isinstance(src_, LArr1D) else None
+            dt = dtype_of(kwargs["dtype"]) if kwargs.get("dtype") is not None else (src_.cont if isinstance(src_, LArr1D) else "f64")
+            if n_ is not None and dt is not None and name != "numpy.empty_like":
+                return LArr1D([LV(Poly.const(0), dt, "nps") for _ in range(n_)], dt)
+        if name == "numpy.arange" and len(args) == 2 and not kwargs and self.lv(args[0]) is not None and self.lv(args[1]) is not None:
+            a_, b_ = self.lv(args[0]).poly, self.lv(args[1]).poly
+            d_ = (b_ - a_)
+            if not d_.terms or set(d_.terms) <= {()}:
+                n_ = int(d_.terms.get((), 0)) if d_.terms else 0
+                return LArr1D([LV(a_ + Poly.const(i), "i64", "nps") for i in range(max(n_, 0))], "i64")
+        if name in ("numpy.isin", "numpy.in1d") and len(args) == 2 and isinstance(args[0], LArr1D) and isinstance(args[1], (list, tuple, LArr1D)) and not (set(kwargs) - {"assume_unique", "invert"}) and isinstance(kwargs.get("invert", False), bool):
+            others = list(args[1].items) if isinstance(args[1], LArr1D) else list(args[1])
+            inv = kwargs.get("invert", False)
+            return Vec((self.truth(self.compare(ast.In(), x, others, node), node) != inv) for x in args[0].items)
         if name in ("numpy.array", "numpy.asarray") and args and isinstance(args[0], (list, tuple)):
             items = [self.lv(x) for x in args[0]]
             if any(x is None for x in items):
                 return Unknown("array of non-labels")
-            dt = dtype_of(kwargs.get("dtype")) if kwargs.get("dtype") is not None else "i64"
+            own = {x.cont for x in items if x.kind == "nps"}
+            # numpy scalars of one dtype make an array of that dtype; python ints the default integer
+            dt = dtype_of(kwargs.get("dtype")) if kwargs.get("dtype") is not None else (own.pop() if len(own) == 1 and all(x.kind == "nps" for x in items) else "i64")
             if dt is None:
                 return Unknown("array with unknown dtype")
             for x in items:
@@ -390,6 +429,23 @@ class RelabelInterp(ResultInterp):
                 self.root.index_checks.append((node, k.poly, base.size, "lookup-table key below the table size"))
                 base.overrides.append((k, val))
             return
+        if isinstance(base, LArr1D) and isinstance(idx, int) and not isinstance(idx, bool) and self.lv(v) is not None:
+            if not -len(base.items) <= idx < len(base.items):
+                raise RaiseSignal("IndexError", node)
+            nv = self.lv(v)
+            self.ev(node, "label table entry", nv.poly, base.cont)  # the value takes the vector's dtype
+            base.items[idx] = LV(nv.poly, base.cont, "nps")
+            return
+        if isinstance(base, LArr1D) and isinstance(idx, Vec) and len(idx) == len(base.items) and all(isinstance(b, bool) for b in idx):
+            pos = [i for i, b in enumerate(idx) if b]
+            vals = list(v.items) if isinstance(v, LArr1D) else list(v) if isinstance(v, (list, tuple)) else [v] * len(pos)
+            if len(vals) != len(pos) or any(self.lv(x) is None for x in vals):
+                raise Undecided("masked store into a label vector with values of another length / kind")
+            for i, x in zip(pos, vals):
+                nv = self.lv(x)
+                self.ev(node, "label table entry", nv.poly, base.cont)
+                base.items[i] = LV(nv.poly, base.cont, "nps")
+            return
         if isinstance(base, VoxelArr) and isinstance(idx, VMask):
             # sequential replacement  out[<mask>] = new
             t = self.truth(idx, node)
@@ -404,6 +460,20 @@ class RelabelInterp(ResultInterp):
         return super().store_subscript_hook(base, idx, v, node)
 
     def subscript_hook(self, base, idx, node):
+        if isinstance(base, LArr1D) and isinstance(idx, int) and not isinstance(idx, bool):
+            try:
+                return base.items[idx]
+            except IndexError:
+                raise RaiseSignal("IndexError", node)
+        if isinstance(base, LArr1D) and isinstance(idx, Vec) and len(idx) == len(base.items) and all(isinstance(b, bool) for b in idx):
+            return LArr1D([x for x, b in zip(base.items, idx) if b], base.cont)
+        if isinstance(base, LArr1D) and isinstance(idx, slice):
+            return LArr1D(base.items[idx], base.cont)
+        if isinstance(base, (tuple, list)) and base and isinstance(idx, Vec) and len(idx) == len(base) and all(isinstance(b, bool) for b in idx) and all(isinstance(x, LV) for x in base):
+            # the pair's label collection selected by a boolean vector: it is kept as an array by this code
+            # (the rule hands it in as a tuple of numpy scalars; as a collection of labels the two are the same)
+            conts = {x.cont for x in base if x.kind == "nps"}
+            return LArr1D([x for x, b in zip(base, idx) if b], conts.pop() if len(conts) == 1 else "i64")
         if isinstance(base, LUT) and isinstance(idx, VoxelArr):
             self.root.index_checks.append((node, idx.amax, base.size, "largest array label below the table size"))
             x = idx.value
